@@ -135,6 +135,9 @@ fn child_main(args: &BTreeMap<String, String>) -> ! {
     let sel: Vec<&str> = args["sel"].split(':').collect();
     let (role, kind, fkind, nth, mode) = (sel[0], sel[1], sel[2], sel[3].parse::<u64>().unwrap(), sel[4]);
     let quiet = args.get("shape").map(|s| s == "quiet").unwrap_or(false);
+    if args.get("shape").map(|s| s == "bulk").unwrap_or(false) {
+        bulk_child(seed, kind, fkind, nth, mode);
+    }
     let (cfg, ops, _) = gen_history(seed, quiet);
     let mon = MonDir::new(MonCfg { monitors: true, keep_payloads: true, ..Default::default() });
     let mut viol: Vec<(String, Value)> = vec![];
@@ -415,6 +418,192 @@ fn child_main(args: &BTreeMap<String, String>) -> ! {
     std::process::exit(0);
 }
 
+/// "bulk" scenario: an indexing worker dies of an I/O error in the middle of a transaction (its
+/// segment is cut by the memory budget, the flush fails) and the client keeps adding more
+/// documents than the bounded pipeline holds, without committing. Every call has to return
+/// (with an error at the latest at commit); nothing may block for ever.
+fn bulk_child(seed: u64, kind: &str, fkind: &str, nth: u64, mode: &str) -> ! {
+    let mut rr = Rng::new(seed);
+    let threads = 1 + rr.below(2) as usize;
+    let cfg = ExecCfg { threads, merge_policy: false, sort: None, budget_per_thread: 15_000_000 };
+    let mon = MonDir::new(MonCfg { monitors: true, keep_payloads: false, ..Default::default() });
+    let mut viol: Vec<(String, Value)> = vec![];
+    let mut ex = match Exec::create(Box::new(mon.clone()), cfg, Some(mon.clone())) {
+        Ok(e) => e,
+        Err(e) => {
+            println!("{}", json!({"result": "create-failed", "err": e}));
+            std::process::exit(0);
+        }
+    };
+    ex.errors_are_violations = false;
+    let mut g = HistGen::new();
+    for _ in 0..rr.urange(1, 5) {
+        ex.step(&Op::Add(g.doc(&mut rr, 3)));
+    }
+    ex.step(&Op::Commit);
+    let mut pred = OpPred::kind(kind_from(kind).expect("kind")).role("worker");
+    if fkind != "*" {
+        pred = pred.fkind(fkind);
+    }
+    let fmode = if mode == "once" { FaultMode::Once } else { FaultMode::Permanent };
+    mon.add_fault(pred, nth, fmode, std::io::ErrorKind::Other);
+    let mut surfaced: Vec<String> = vec![];
+    let mut api_calls = 0u64;
+    for _ in 0..rr.urange(1, 4) {
+        api_calls += 1;
+        if !ex.step(&Op::Add(g.doc(&mut rr, 3))).ok {
+            surfaced.push("add".into());
+        }
+    }
+    // oversized documents: every worker that gets one flushes its segment right away
+    for _ in 0..threads * 2 {
+        let mut d = g.doc(&mut rr, 3);
+        d.pad = CUTTER_PAD;
+        api_calls += 1;
+        if !ex.step(&Op::Add(d)).ok {
+            surfaced.push("add-cutter".into());
+        }
+    }
+    let hs = ex.hs.clone();
+    let mut first_err: Option<(usize, String)> = None;
+    if let Some(w) = ex.writer.as_ref() {
+        for i in 0..12_000usize {
+            let d = g.doc(&mut rr, 3);
+            api_calls += 1;
+            if let Err(e) = w.add_document(d.to_doc(&hs)) {
+                first_err = Some((i, e.to_string()));
+                surfaced.push("bulk-add".into());
+                break;
+            }
+        }
+    }
+    let fired = mon.faults_fired();
+    api_calls += 1;
+    let commit_ok = match ex.writer.as_mut().map(|w| w.commit()) {
+        Some(Ok(_)) => true,
+        Some(Err(_)) => {
+            surfaced.push("commit".into());
+            false
+        }
+        None => false,
+    };
+    if fired > 0 && surfaced.is_empty() && commit_ok {
+        viol.push((
+            "worker-fault-swallowed:adds-and-commit-returned-Ok".into(),
+            json!({"threads": threads, "fired": fired}),
+        ));
+    }
+    mon.clear_faults();
+    if fired > 0 || !commit_ok {
+        // recover the way a user would and make sure the last successful commit is what is there
+        ex.abandon_writer();
+        match observe_snapshot(&mon) {
+            Err(e) => viol.push(("after-faults:last-commit-unreadable".into(), json!(e))),
+            Ok(ids) => {
+                // the failed transaction is either completely absent or (commit returned Ok
+                // although a fault fired - reported above) present; partial states are violations
+                if !commit_ok && !same(&ids, &ex.model.committed) {
+                    viol.push((
+                        "after-faults:storage-state-differs-from-last-successful-commit".into(),
+                        json!({"n_ids": ids.len(), "expected": ex.model.committed.len()}),
+                    ));
+                }
+            }
+        }
+        if !commit_ok {
+            ex.errors_are_violations = true;
+            ex.problems.clear();
+            match ex.open_writer() {
+                Err(e) => viol.push(("after-faults:cannot-create-writer".into(), json!(e))),
+                Ok(()) => {
+                    let mut g2 = HistGen { next_id: 5_000_000 };
+                    ex.step(&Op::Add(g2.doc(&mut rr, 3)));
+                    let o = ex.step(&Op::Commit);
+                    if !o.ok {
+                        viol.push(("after-faults:commit-failed".into(), json!(o.err)));
+                    } else {
+                        for (sig, d) in ex.check_committed(true) {
+                            viol.push((format!("after-faults:{sig}"), d));
+                        }
+                    }
+                }
+            }
+            for (sig, d) in ex.problems.drain(..) {
+                if !is_known("C02", &sig) {
+                    viol.push((format!("after-faults:{sig}"), d));
+                }
+            }
+        }
+    }
+    println!(
+        "{}",
+        json!({"result": "done", "fired": fired, "surfaced": surfaced, "api_calls": api_calls, "ok_commits": 1,
+               "bulk_first_error_at": first_err.as_ref().map(|e| e.0), "threads": threads,
+               "violations": viol.iter().map(|(s, d)| json!([s, d])).collect::<Vec<_>>()})
+    );
+    std::process::exit(0);
+}
+
+fn bulk_case(case: u64, rng: &mut Rng, rep: &mut Report) {
+    let cseed = rng.next_u64();
+    let kind = *rng.pick(&["open_write", "write", "write", "terminate", "flush"]);
+    let nth = match kind {
+        "write" => rng.below(30),
+        _ => rng.below(7),
+    };
+    let mode = *rng.pick(&["once", "perm"]);
+    let sel = format!("worker:{kind}:*:{nth}:{mode}");
+    rep.eval();
+    match run_child(cseed, &sel, "bulk", Duration::from_secs(45)) {
+        ChildEnd::Inconclusive(e) => rep.note(format!("scenario bulk {sel} inconclusive: {e}")),
+        ChildEnd::Signal(sig) => rep.violation(
+            format!("child-aborted:signal-{sig}:bulk:worker:{kind}"),
+            json!({"case": case, "cseed": cseed, "selector": sel}),
+        ),
+        ChildEnd::Hang(stacks) => rep.violation(
+            format!("child-hung:bulk-adds-after-worker-fault:worker:{kind}"),
+            json!({"case": case, "cseed": cseed, "selector": sel, "stacks": stacks,
+                   "replay_child": format!("harness/target/verif/c11 --child 1 --cseed {cseed} --sel {sel} --shape bulk")}),
+        ),
+        ChildEnd::Output(out) => {
+            let line = out.lines().last().unwrap_or("");
+            let v: Value = match serde_json::from_str(line) {
+                Ok(v) => v,
+                Err(_) => {
+                    rep.harness_error(format!("child output unparsable for bulk {sel}: {line:.200}"));
+                    return;
+                }
+            };
+            match v["result"].as_str() {
+                Some("done") => {}
+                Some("harness-panic") => {
+                    rep.harness_error(format!("child harness panic bulk {sel}: {}", v));
+                    return;
+                }
+                _ => return,
+            }
+            let fired = v["fired"].as_u64().unwrap_or(0);
+            rep.count("bulk_scenarios_run", 1);
+            if fired > 0 {
+                rep.count("bulk_scenarios_where_worker_fault_fired", 1);
+                let first = v["surfaced"][0].as_str().unwrap_or("absorbed").to_string();
+                rep.observe("surfaced_at", format!("bulk:worker:{kind} -> {first}"));
+                rep.nontrivial(format!("bulk:worker:{kind}:{mode}:threads={}:{first}", v["threads"]));
+            }
+            if let Some(vs) = v["violations"].as_array() {
+                for x in vs {
+                    let sig = x[0].as_str().unwrap_or("?").to_string();
+                    rep.violation(
+                        format!("bulk:{sig}|fault@worker:{kind}"),
+                        json!({"case": case, "cseed": cseed, "selector": sel, "detail": x[1], "surfaced": v["surfaced"],
+                               "replay_child": format!("harness/target/verif/c11 --child 1 --cseed {cseed} --sel {sel} --shape bulk")}),
+                    );
+                }
+            }
+        }
+    }
+}
+
 enum ChildEnd {
     Output(String),
     Signal(i32),
@@ -429,11 +618,11 @@ fn cpu_ticks(pid: u32) -> Option<u64> {
     Some(f.get(11)?.parse::<u64>().ok()? + f.get(12)?.parse::<u64>().ok()?)
 }
 
-fn run_child(cseed: u64, sel: &str, quiet: bool, watchdog: Duration) -> ChildEnd {
+fn run_child(cseed: u64, sel: &str, shape: &str, watchdog: Duration) -> ChildEnd {
     use std::os::unix::process::ExitStatusExt;
     let exe = std::env::current_exe().expect("exe");
     let mut child = match Command::new(exe)
-        .args(["--child", "1", "--cseed", &cseed.to_string(), "--sel", sel, "--shape", if quiet { "quiet" } else { "any" }])
+        .args(["--child", "1", "--cseed", &cseed.to_string(), "--sel", sel, "--shape", shape])
         .stdout(Stdio::piped())
         .stderr(Stdio::null())
         .spawn()
@@ -540,7 +729,7 @@ fn parent_case(case: u64, rng: &mut Rng, rep: &mut Report, per_history: usize, q
         };
         let sel = format!("{}:{}:{}:{}:{}", k.0, k.1, k.2, nth, mode);
         rep.eval();
-        match run_child(cseed, &sel, quiet, Duration::from_secs(60)) {
+        match run_child(cseed, &sel, if quiet { "quiet" } else { "any" }, Duration::from_secs(60)) {
             ChildEnd::Inconclusive(e) => rep.note(format!("scenario {sel} inconclusive: {e}")),
             ChildEnd::Signal(sig) => rep.violation(
                 format!("child-aborted:signal-{sig}:{}:{}:{}", k.0, k.1, k.2),
@@ -694,10 +883,11 @@ fn main() {
         parent_case(c, rng, rep, 6, true)
     }));
     rep.merge(run_cases(&ctx, "forced-merge-fault", ctx.scale(60, 3000) as u64, forced_merge_fault_case));
+    rep.merge(run_cases(&ctx, "bulk", ctx.scale(32, 600) as u64, bulk_case));
     simple_finish(
         &ctx,
         rep,
-        "case = one fault scenario run in its own child process: a generated history (adds, deletes, commits, merges, GC, rollback, reopen; 1-3 indexing threads) with one injected storage fault selected from the fault-free reference run of the same history (thread role x operation kind x file kind x occurrence; once / permanent from there / storage dead). Checked: a failed commit took effect completely or not at all; every commit that returned Ok is recoverable from the durable image taken at its return; after faults stop storage holds exactly the last successful commit, a new writer can be created, add and commit; no abort, no hang (watchdog + CPU-progress test + gdb stacks). Non-trivial = the fault actually fired; distinct = (role, op, file kind, mode, API call that surfaced it).",
+        "case = one fault scenario run in its own child process: a generated history (adds, deletes, commits, merges, GC, rollback, reopen; 1-3 indexing threads) with one injected storage fault selected from the fault-free reference run of the same history (thread role x operation kind x file kind x occurrence; once / permanent from there / storage dead). Checked: a failed commit took effect completely or not at all; every commit that returned Ok is recoverable from the durable image taken at its return; after faults stop storage holds exactly the last successful commit, a new writer can be created, add and commit; no abort, no hang (watchdog + CPU-progress test + gdb stacks). Stream `bulk`: a worker dies of a fault while its segment is cut mid-transaction and the client keeps adding more documents than the bounded pipeline holds: every call returns, the error surfaces at the latest at commit. Non-trivial = the fault actually fired; distinct = (role, op, file kind, mode, API call that surfaced it).",
         ctx.scale(40, 200),
         &[
             "hang = watchdog (60 s, >100x the fault-free runtime) and no CPU progress over 1.5 s; anything else after the watchdog is inconclusive",
